@@ -3,6 +3,7 @@
 package c16
 
 import (
+	"github.com/cloudflare/circl/group"
 	"testing"
 
 	"github.com/cloudflare/circl/internal/zzverif/lib"
@@ -62,8 +63,12 @@ func TestVerifSimOT(t *testing.T) {
 		var e0, e1 []byte
 		var err3 error
 		var got []byte
+		var aEnc []byte
+		var aObj group.Element
 		if pn := lib.Try("simot.rounds:"+gr.name, cat(m0, m1), func() {
 			A := sender.InitSender(gr.g, lib.Clone(m0), lib.Clone(m1), c.rep)
+			aEnc, _ = A.MarshalBinary()
+			aObj = A
 			B := receiver.Round1Receiver(gr.g, c.choice, c.rep, A)
 			e0, e1 = sender.Round2Sender(B)
 			err3 = receiver.Round3Receiver(e0, e1, c.choice)
@@ -112,6 +117,22 @@ func TestVerifSimOT(t *testing.T) {
 		}
 		probe("ciphertexts-exchanged", "simot:swapped-rejected", e1, e0, c.choice)
 		probe("other-choice-bit", "simot:wrong-choice-rejected", e0, e1, 1-c.choice)
+		// a retransmission of the genuine pair is processed again: same message;
+		// and the element the receiver was given in round 1 is still the sender's A
+		{
+			var err error
+			var mc []byte
+			if pn := lib.Try("simot.Round3Receiver:again", cat(e0, e1), func() {
+				err = receiver.Round3Receiver(e0, e1, c.choice)
+				mc = receiver.Returnmc()
+			}); pn != nil || err != nil || !lib.Eq(mc, ms[c.choice]) {
+				lib.Violation("C16:ot-wrong-message:simot.Round3Receiver:second-processing-of-the-same-pair", mon, withKV(base, "err", err, "received", mc, "panic", pn != nil))
+			}
+			lib.Count("simot:round3-repeated")
+			if now, _ := aObj.MarshalBinary(); !lib.Eq(now, aEnc) {
+				lib.Violation("C16:ot-argument-changed:simot.Receiver:element-A", mon, withKV(base, "before", aEnc, "after", now))
+			}
+		}
 		// a second receiver with the other choice bit against the same sender
 		// state gets the other message and not this one
 		if c.rep == 0 && c.l%10 == 0 {
